@@ -354,6 +354,11 @@ func EncryptCPAonG1(s pairing.Suite, basePoint, public kyber.Point, ID, msg []by
 		// we're using blake2 as XOF which only outputs 2^16-1 length
 		return nil, errors.New("ciphertext too long")
 	}
+	// the pad derived by gtToHash is one hash output: the rest of a longer
+	// message would be XORed with zeros, i.e. sent in the clear
+	if len(msg) > s.Hash().Size() {
+		return nil, errors.New("plaintext too long for the hash function provided")
+	}
 	hashable, ok := s.G2().Point().(kyber.HashablePoint)
 	if !ok {
 		return nil, errors.New("point needs to implement hashablePoint")
